@@ -16,8 +16,12 @@ ARR = {'x': [1, 2], 'y': [], 'n': None}
 OBJ = {'x': {'a': 1}, 'y': {}, 'n': None}
 
 
+import decimal
+NUMKEY = {'k1': decimal.Decimal('1.5'), 'k2': decimal.Decimal('2.5')}
+
+
 def mkrow(k, v, cols):
-    r = {'k': k, 'v': v}
+    r = {'k': NUMKEY[k] if 'numkey' in cols else k, 'v': v}
     if 'arr' in cols:
         r['arr'] = copy.deepcopy(ARR[v])
     if 'obj' in cols:
@@ -51,6 +55,8 @@ def canon(rows):
 def stored(r):
     """How a row is expected to look inside SQLite (array/object as JSON text, null as NULL)."""
     out = dict(r)
+    if isinstance(out.get('k'), decimal.Decimal):
+        out['k'] = float(out['k'])          # SQLite holds numbers as REAL
     for f in ('arr', 'obj'):
         if f in out and out[f] is not None:
             out[f] = json.dumps(out[f])
@@ -85,7 +91,7 @@ def model_apply(table, mode, batch, pk):
 
 def do_dump(dbpath, cfg, mode, batch):
     cols = cfg['cols']
-    fields = [('k', 'string'), ('v', 'string')] + ([('arr', 'array')] if 'arr' in cols else []) + \
+    fields = [('k', 'number' if 'numkey' in cols else 'string'), ('v', 'string')] + ([('arr', 'array')] if 'arr' in cols else []) + \
         ([('obj', 'object')] if 'obj' in cols else [])
     rows = [mkrow(k, v, cols) for k, v in batch]
     st = mkstate([('r', fields, rows)] + ([('r2', fields, copy.deepcopy(rows))] if cfg.get('two') else []))
@@ -116,6 +122,8 @@ def explore(task):
 
     def V(oracle, what, hist):
         sig = '%s/%s' % (oracle, 'pk' if cfg['pk'] else 'nopk')
+        if 'numkey' in cfg['cols']:
+            sig += '/number-key' + ('+bloom' if cfg['bloom'] else '')
         if oracle == 'downstream-json-strings':
             sig = oracle
         if sig not in seen_sig:
@@ -247,6 +255,8 @@ def configs(tier):
                     out.append({'pk': pk, 'batch_size': bs, 'bloom': bloom, 'cols': cols})
     if tier == 'quick':
         out = [c for c in out if (c['cols'] != ['arr']) and not (c['batch_size'] == 2 and c['bloom'] is False)]
+    for bloom in (True, False):
+        out.append({'pk': False, 'batch_size': 1000, 'bloom': bloom, 'cols': ['numkey']})
     out.append({'pk': False, 'batch_size': 1000, 'bloom': True, 'cols': [], 'keys_always': True})
     out.append({'pk': False, 'batch_size': 1, 'bloom': False, 'cols': ['arr', 'obj'], 'keys_always': True})
     # one step writing two tables with the same column names
